@@ -412,6 +412,15 @@ func opPartsPurity(_ *HState, a Event) Event {
 				e["argmod"], e["which"] = true, []string{"version", "key", "chain code", "parent fingerprint"}[j]
 			}
 		}
+		// erasing the key erases the key: the caller's memory BEHIND the slices it was made of (another record in the same
+		// buffer) is not the key's to wipe
+		k.Zero()
+		for j, bk := range [][]byte{vb, kb, cb, fb} {
+			n := []int{4, len(key), 32, 4}[j]
+			if !bytes.Equal(bk[n:], before[j][n:]) && e["argmod"] == false {
+				e["argmod"], e["which"] = true, []string{"version", "key", "chain code", "parent fingerprint"}[j]+" (memory behind the slice, on Zero)"
+			}
+		}
 	})
 	return panicField(e, p, msg)
 }
